@@ -42,9 +42,9 @@ package oracles
 //@ func (o *pdOracle) setLastTS
 //@   prop C13
 //@   requires issued(ts)
-//@   at call(CompareAndSwap) assert newer: current.tso > last.tso && issued(current.tso) && arg1 == last && arg2 == current
+//@   at call(CompareAndSwap) assert newer: current.tso > last.tso && issued(current.tso) && arg0 == last && arg1 == current
 //@   at call(Store) assert first: issued(current.tso)
-//@   at call(LoadOrStore) assert atomicinsert: arg2 != nil
+//@   at call(LoadOrStore) assert atomicinsert: arg1 != nil
 //@   ensures published: current.tso <= last.tso || lastTSPointer.v == current
 
 //@ func (o *pdOracle) GetTimestamp
